@@ -367,6 +367,22 @@ theorem C05_server_limit : serverLimit none = 0 ∧ serverLimit (some 0) = 0 ∧
     serverLimit Gen.C05.serverMaxRequestBodySize = Gen.C05.serverMaxRequestBodySize.getD 0 := by
   simp [serverLimit]
 
+/-- **Each server enforces its own limit.**  Changing the limits of any OTHER adapter — the global
+    `cherrypy.server` included — does not change what the wsgi server of adapter `i` is given. -/
+theorem C05_server_limit_own (as bs : List Adapter) (i : Nat) (h : as[i]? = bs[i]?) :
+    wsgiLimits as i = wsgiLimits bs i := by
+  simp [wsgiLimits, h]
+
+/-- a configured limit `m > 0` on the receiving server refuses exactly the bodies longer than `m`;
+    `None` / 0 / never configured-to-0 means no limit -/
+theorem C05_server_refuses_iff (a : Adapter) (m n : Nat) (hm : m ≠ 0) (hb : a.body = some (some m)) :
+    serverRefuses (serverLimit (adapterBody a)) n = true ↔ n > m := by
+  simp [serverRefuses, serverLimit, adapterBody, hb, hm]
+
+theorem C05_server_no_limit (a : Adapter) (n : Nat) (hb : a.body = some none ∨ a.body = some (some 0)) :
+    serverRefuses (serverLimit (adapterBody a)) n = false := by
+  rcases hb with hb | hb <;> simp [serverRefuses, serverLimit, adapterBody, hb]
+
 /-! ### `finish()` and the trailer -/
 
 /-- the loop body folded over a block of trailer lines -/
